@@ -22,3 +22,5 @@ CHECKS += [c for c in _c18 if c.name == "MGDA"]
 TRUSTED = ["Gramian-determined primitives: linalg.norm(J, dim=1)^2 = diag(J J^T); cdist(J,J)^2 = G_ii + G_jj - 2 G_ij; the "
            "left singular vectors/values of J are those of J J^T (bridge lemma svd_gram)",
            "bridge lemmas gramAgg_orthogonal, gramAgg_isometry, gramAgg_col_perm, gramAgg_zero_cols, gramAgg_mem_rowSpan (Lean)"]
+
+VALIDATE_ALGEBRAIC_PRIMS = True  # [V] the algebraic primitive contracts are sampled against real torch on every run
